@@ -5,7 +5,7 @@ namespace Driver.Ops.L2
 open Asn1c Asn1c.L2 Driver
 
 /-- ops on the current module: `@Type l2enc der <val>` / `@Type l2dec ber <hex>` / `@Type l2ty` -/
-def run (ctx : ModCtx) (tyName : String) : List String → String
+def runDer (ctx : ModCtx) (tyName : String) : List String → String
   | "l2enc" :: "der" :: vwords =>
     match resolveNamed ctx tyName, (Sexp.parseWords vwords).bind parseVal with
     | some t, some v =>
@@ -28,5 +28,15 @@ def run (ctx : ModCtx) (tyName : String) : List String → String
     | some t => reprStr t
     | none => "unsupported-type"
   | _ => bad
+
+/-- sub-handlers for further syntaxes: `none` = not mine -/
+abbrev SubHandler := ModCtx → String → List String → Option String
+
+def derHandler : SubHandler := fun ctx ty toks =>
+  match toks with
+  | "l2enc" :: "der" :: _ => some (runDer ctx ty toks)
+  | ["l2dec", "ber", _] => some (runDer ctx ty toks)
+  | ["l2ty"] => some (runDer ctx ty toks)
+  | _ => none
 
 end Driver.Ops.L2
